@@ -48,7 +48,7 @@ func genLocal(r *rand.Rand) string {
 func genCase(r *rand.Rand, size int) scase {
 	shapeNames := []string{"unary", "unaryS", "sstream", "cstream", "bidi"}
 	shape := shapeNames[r.Intn(len(shapeNames))]
-	c := scase{Shape: shape, Out: "-"}
+	c := scase{Shape: shape, Out: "-", Reuse: r.Intn(4) == 0}
 	if r.Intn(3) == 0 {
 		c.Out = "u=" + strconv.Itoa(r.Intn(3))
 		switch r.Intn(4) {
@@ -256,7 +256,7 @@ func abortTail(r *rand.Rand, cli *[]string) {
 // fixed small cases first: they make the first replay per signature small, and contain the scripts of
 // the two divergences found by the side-by-side probe.
 func basicCases() []scase {
-	return []scase{
+	return mk([][5]string{
 		{"unary", "-", "R,M1", "OK", "s1,c,r,h,t"},
 		{"unary", "u=1", "R,Ha=1,Tb=2,M1", "OK", "s1,c,r,h,t"},
 		{"unary", "-", "R", "E5:e0", "s1,c,r,h,t"},
@@ -284,5 +284,34 @@ func basicCases() []scase {
 		{"bidi", "-", "R,W", "OK", "s1,x,r"},
 		{"bidi", "-", "R,R", "OK", "s1,d,r"},
 		{"bidi", "u=1+u=2", "Ha=1,R,W", "OK", "s1,x,r"},
+	})
+}
+
+func mk(xs [][5]string) []scase {
+	var out []scase
+	for _, x := range xs {
+		out = append(out, scase{Shape: x[0], Out: x[1], Srv: x[2], Fin: x[3], Cli: x[4]})
 	}
+	return out
+}
+
+// ampCases: the client is parked in RecvMsg when the handler returns a status / ends cleanly, and the
+// handler has derived many child contexts from the call's context (amp thousand). All call shapes.
+func ampCases(amp int) []scase {
+	cs := mk([][5]string{
+		{"unary", "-", "R", "E9:e0", "s1,c,r,h,t"},
+		{"unaryS", "-", "R", "E9:e0", "s1,c,r,t"},
+		{"unaryS", "-", "R,M2", "OK", "s1,c,r,r,t"},
+		{"sstream", "-", "R,M1,M2", "E9:quota", "s2,c,r,r,r,t"},
+		{"sstream", "-", "R,M1,M2,M3", "OK", "s3,c,r,r,r,r,t"},
+		{"sstream", "-", "R", "OK", "s0,c,r"},
+		{"cstream", "-", "R,R", "E3:e0", "s1,c,r,t"},
+		{"cstream", "-", "R,R,M4", "OK", "s1,c,r,r,t"},
+		{"bidi", "-", "R,M1,R", "E5:e0", "s1,r,c,r,t"},
+		{"bidi", "-", "R,M1", "OK", "s1,r,r,t"},
+	})
+	for i := range cs {
+		cs[i].Amp = amp
+	}
+	return cs
 }
